@@ -77,6 +77,14 @@ let parse_xop () =
        | "T" -> XDeleteWhere (s, DwTrue)
        | "EQ" -> let f = next_name () in let v = next_hex () in XDeleteWhere (s, DwFieldEq (f, v))
        | t -> failwith ("bad DW filter " ^ t))
+  | Some "G" ->
+      (* guarded create / update (Store/XOps.v XPersist; same tokens as store_driver.ml):
+         G <badtags> <k> (<store> <field>)*k <C .. | UP ..> *)
+      ignore (next ());
+      let bt = next_bool () in
+      let k = next_int () in
+      let req = repeat k (fun () -> let s = next_name () in let f = next_name () in (s, f)) in
+      XPersist (bt, req, parse_op ())
   | _ -> XBase (parse_op ())
 
 (* a transaction whose body holds plain operations only is a [tx] as before (and may be a mixed transaction / a restore
